@@ -95,6 +95,12 @@ def unit_setup_ss(twin=False):
         want = {"type": ("I", I(int(hdr_val("SS_MOLES")))), "ss_ptr": ("P", ssj), "ss_comp_ptr": ("P", comp), "ss_comp_number": ("I", i if not twin else I(0)), "phase": ("P", pb[0].result),
                 "number": ("I", cnt0), "moles": ("R", tm.app("call:Get_moles", (comp,), "R"))}
         _record(r, "component", ex, s, want, "ss_unknown")
+        # the (persistent) phase structure takes the component's stored activity coefficient and mole fraction: ss_ideal() never writes
+        # phase->log10_lambda, so this copy (0 for an ideal component, C03.ss_ideal) is what makes an ideal component's activity its mole fraction
+        for pf in ("log10_lambda", "log10_fraction_x", "dn", "dnb", "dnc"):
+            pw = [ix for ix, v in writes(s, ("f", pf, "R"))]
+            if put(r, "component.phase->%s_written_on_the_component's_phase" % pf, any(ix == (pb[0].result,) for ix in pw), repr(pw)[:160], kind="frame"):
+                eqr(r, "component.phase->%s==component's_%s" % (pf, pf), list(s.pc), tm.select(ex.heap_arr(s, ("f", pf, "R")), pb[0].result), tm.app("call:Get_" + pf, (comp,), "R"))
         sm = [e for e in U.iter_events(s) if e.name.endswith("Set_moles")]
         for hc, empty in cases(list(s.pc), tm.le(tm.app("call:Get_moles", (comp,), "R"), tm.num(0))):
             if empty:
